@@ -33,17 +33,17 @@ func specs() map[string]*propSpec {
 	m["C08"] = &propSpec{id: "C08", engine: "E2-call-history-simulator", level: "exploration",
 		rule:     "seeded histories of 20..860 struct-validation calls by one simulated client over more struct types than the cache holds (static multi-tag types, same-named types from two packages, and up to 560 reflect.StructOf types), tag names and per-call rule/function overrides drawn per call; cache configuration drawn per history (LRU 0/1/2/3/8/512, sync.Map, always-miss, the built-in default in a fresh process) with injected cache faults (store lost, load miss with removal, flush); pools pinned to always-fresh in 3 of 5 histories (only the cache carries state) and recycling in the others; every result compared with the oracle process; non-trivial = a cache hit happened and (an eviction, an injected cache fault, or a second tag name for a cached type); for the built-in cache (not observable): a type was validated under two tag names or more than 512 distinct types were used",
 		assume:   e2assume,
-		quick:    budget{race: false, runs: 6400, maxWall: 40 * time.Second},
+		quick:    budget{race: false, runs: 6400, maxWall: 30 * time.Second},
 		thorough: budget{race: false, runs: 4000000, maxWall: 10 * time.Minute}}
 	m["C12"] = &propSpec{id: "C12", engine: "E2-call-history-simulator", level: "exploration",
 		rule:     "seeded histories of 10..600 heterogeneous calls (all struct entry points, Var, Map, Url, GetOnlyExplainErr, GenValidKV, ValidNamesSplit, GetDumpStructStr) by one simulated client, a quarter of them followed by a seeded permutation of the same calls; pools recycle LIFO / oldest-first / random with injected pool faults; small caches; oracles: result equals the oracle process's, inputs deep-equal to a twin, every string handed out still reads as when handed out after the pools were churned; non-trivial = at least one pooled object was recycled and >= 2 calls ran",
 		assume:   e2assume,
-		quick:    budget{race: false, runs: 9600, maxWall: 40 * time.Second},
+		quick:    budget{race: false, runs: 9600, maxWall: 30 * time.Second},
 		thorough: budget{race: false, runs: 4000000, maxWall: 10 * time.Minute}}
 	m["C11"] = &propSpec{id: "C11", engine: "E2-call-history-simulator", level: "exploration",
 		rule:     "seeded schedules of 2..32 simulated clients x 1..8 calls (all entry points) over shared and private types with small, default and overflowing caches, pool policies and pool/cache faults, under the race detector with the simulator's hand-offs hidden; every call's result compared with its solo result from the oracle process; non-trivial = >= 2 calls of different clients overlapped and (a pooled object crossed clients or a cached entry was hit)",
 		assume:   append(e2assume, "a race report is a verdict of Go's race detector on the simulated schedule; pools inside the standard library keep the real sync.Pool and can mask (never invent) a report"),
-		quick:    budget{race: true, runs: 9600, maxWall: 45 * time.Second},
+		quick:    budget{race: true, runs: 9600, maxWall: 40 * time.Second},
 		thorough: budget{race: true, runs: 3000000, maxWall: 10 * time.Minute}}
 	return m
 }
@@ -243,7 +243,7 @@ func replayFile(path string) int {
 		mode = "both"
 		bin += ".race"
 		os.MkdirAll(filepath.Join(s.dir, "race"), 0o755)
-		env = []string{"GORACE=halt_on_error=0 exitcode=66 history_size=7 log_path=" + filepath.Join(s.dir, "race", "replay")}
+		env = []string{"GORACE=halt_on_error=0 exitcode=66 history_size=7 atexit_sleep_ms=0 log_path=" + filepath.Join(s.dir, "race", "replay")}
 	}
 	if err := s.build(mode); err != nil {
 		return trouble("build failed: %v", err)
